@@ -5,6 +5,8 @@ The `EditM` monad unfolded, and `setValue` / `removeValue` characterised on plai
 single-segment paths and attrpath leaves as updates by identity. Shared by C04 and C19.
 -/
 namespace Nima
+-- name tokens are compared by spelling in this file (see `NameCmp` in Model/Edit.lean)
+attribute [local instance] NameCmp.spelled
 open Node
 
 /-! ## the `EditM` monad, unfolded -/
@@ -92,7 +94,7 @@ theorem setSid_of_setValues_ne (n : Node) (h : n.setValues ≠ []) : ∃ sid, n.
   exact ⟨_, rfl⟩
 
 theorem findBinding_some_ne {vs : List Node} {k : Text} {b : Node} (h : findBinding vs k = some b) : vs ≠ [] := by
-  intro h'; subst h'; simp [findBinding] at h
+  intro h'; subst h'; simp [findBinding_spelled] at h
 
 theorem set_existing_plain (d : Doc) (p k : Text) (v : Node) (bid : Nat) (nm : Text) (ne : Bool)
     (val : Node) (bf af : Payload)
@@ -160,7 +162,7 @@ theorem set_attrpath_leaf (d : Doc) (p : Text) (segs : List Text) (v : Node) (li
     | none =>
       exfalso
       cases ht : d.target <;> simp [ht, setSid?] at hs <;>
-        cases rest <;> simp [ht, findAttrpathLeaf, walkAttrpathStack, setValues, findAttrpathRoot] at hl
+        cases rest <;> simp [ht, findAttrpathLeaf, walkAttrpathStack, setValues, findAttrpathRoot_spelled] at hl
     | some sid =>
       simp [hl, bindId?]
 
